@@ -162,6 +162,17 @@ def divMismatch (fs : Option Str) (l : Str) : Bool :=
 theorem divMismatch_of_noDelim (fs : Option Str) (l : Str) (h : NoDelim '-' l) : divMismatch fs l = true := by
   simp [divMismatch, parseDelimLine_noDelim h]
 
+/-- A `---` line is harmless for a test whose divider has `d` dashes if it does not carry the file's suffix, or
+if its number of dashes satisfies `ok` (`≤ d` before the divider — the divider is at least as long and later —,
+`< d` after it). -/
+def dashBound (fs : Option Str) (ok : Nat → Bool) (l : Str) : Bool :=
+  match parseDelimLine l '-' with
+  | some (n, s) => !suffixMatches fs s || ok n
+  | none => true
+
+theorem dashBound_of_noDelim (fs : Option Str) (ok : Nat → Bool) (l : Str) (h : NoDelim '-' l) : dashBound fs ok l = true := by
+  simp [dashBound, parseDelimLine_noDelim h]
+
 theorem bestDivider_noDelim (fs : Option Str) :
     ∀ (ls rest : List Str) (j : Nat) (best : Option (Nat × Nat)) (bt : Nat),
       (∀ l ∈ ls, divMismatch fs l = true) →
@@ -235,23 +246,24 @@ def fsOf (suf : Str) : Option Str := if suf.isEmpty then none else some suf
 /-- A line of an input or expectation that cannot be mistaken for a delimiter of THIS file: not a `===`
 line with the file's suffix, not a `---` line with the file's suffix, and — in a file without suffix —
 no `===` line at all (a `===` line followed by text would become the file's suffix). -/
-def BodyLineOK (suf : Str) (l : Str) : Prop :=
-  isHeaderDelim (fsOf suf) l = false ∧ divMismatch (fsOf suf) l = true ∧ (suf = [] → NoDelim '=' l)
+def BodyLineOK (suf : Str) (ok : Nat → Bool) (l : Str) : Prop :=
+  isHeaderDelim (fsOf suf) l = false ∧ dashBound (fsOf suf) ok l = true ∧ (suf = [] → NoDelim '=' l)
 
-instance (suf l : Str) : Decidable (BodyLineOK suf l) := by unfold BodyLineOK; infer_instance
+instance (suf : Str) (ok : Nat → Bool) (l : Str) : Decidable (BodyLineOK suf ok l) := by unfold BodyLineOK; infer_instance
 
 /-- The corrections for which the round trip is proved, relative to the file's suffix: delimiters of
 length ≥ 3, a name of one or several lines (none blank / a marker / `===…`), attribute text as in
-`AttrsOK`, every line of the input and of the (trimmed) expectation `BodyLineOK`; the input does not end in
-a carriage return. -/
+`AttrsOK`, every line of the input and of the (trimmed) expectation `BodyLineOK` — in particular a `---` line
+carrying the file's suffix may occur in the input if it is not longer than the divider, and in the expectation if
+it is shorter —; the input does not end in a carriage return. -/
 structure SimpleS (suf : Str) (c : Correction) : Prop where
   hlen : 3 ≤ c.hlen
   dlen : 3 ≤ c.dlen
   name : NameOK c.name
   attrs : AttrsOK c.attrsStr
-  inputLines : ∀ l ∈ splitIncl (c.input ++ ['\n']), BodyLineOK suf l
+  inputLines : ∀ l ∈ splitIncl (c.input ++ ['\n']), BodyLineOK suf (fun n => decide (n ≤ c.dlen)) l
   inputCr : popNewline (c.input ++ ['\n']) = c.input
-  outputLines : ∀ l ∈ splitIncl (trim c.output ++ ['\n']), BodyLineOK suf l
+  outputLines : ∀ l ∈ splitIncl (trim c.output ++ ['\n']), BodyLineOK suf (fun n => decide (n < c.dlen)) l
 
 /-- The suffix-independent (stronger) form: no line of the input or expectation starts with `===` or `---`. -/
 structure Simple (c : Correction) : Prop where
@@ -326,9 +338,9 @@ theorem isHeaderDelim_noDelim (fs : Option Str) (l : Str) (h : NoDelim '=' l) : 
 theorem Simple.toS {c : Correction} (h : Simple c) (suf : Str) : SimpleS suf c :=
   { hlen := h.hlen, dlen := h.dlen, name := h.name, attrs := h.attrs, inputCr := h.inputCr
     inputLines := fun l hl => ⟨isHeaderDelim_noDelim _ l (h.inputLines l hl).1,
-      divMismatch_of_noDelim _ l (h.inputLines l hl).2, fun _ => (h.inputLines l hl).1⟩
+      dashBound_of_noDelim _ _ l (h.inputLines l hl).2, fun _ => (h.inputLines l hl).1⟩
     outputLines := fun l hl => ⟨isHeaderDelim_noDelim _ l (h.outputLines l hl).1,
-      divMismatch_of_noDelim _ l (h.outputLines l hl).2, fun _ => (h.outputLines l hl).1⟩ }
+      dashBound_of_noDelim _ _ l (h.outputLines l hl).2, fun _ => (h.outputLines l hl).1⟩ }
 
 theorem headerLine_name (os : Str) (st : HState) (l : Str) (hs : st.seenMarker = false) (h : NameLineOK l) :
     headerLine os st l = some { st with testName := st.testName ++ l } := by
@@ -502,30 +514,98 @@ theorem drop_len_succ {α : Type} (a : List α) (x : α) (r : List α) : (a ++ x
   | nil => simp
   | cons y ys ih => simpa using ih
 
+theorem suffixMatches_fsOf_eq (suf s : Str) (h : suffixMatches (fsOf suf) s = true) : s = suf := by
+  cases suf with
+  | nil => cases s <;> simp_all [fsOf, suffixMatches]
+  | cons a t => cases s <;> simp_all [fsOf, suffixMatches]
+
+/-- Scanning lines whose matching `---` lines have at most `d` dashes keeps the best candidate at most as long
+as a divider of `d` dashes. -/
+theorem bestDivider_le (suf : Str) (d : Nat) :
+    ∀ (ls rest : List Str) (j : Nat) (best : Option (Nat × Nat)) (bt : Nat), bt ≤ d + utf8Len suf →
+      (∀ l ∈ ls, dashBound (fsOf suf) (fun n => decide (n ≤ d)) l = true) →
+      ∃ best' bt', bt' ≤ d + utf8Len suf ∧
+        bestDivider (fsOf suf) (ls ++ rest) j best bt = bestDivider (fsOf suf) rest (j + ls.length) best' bt'
+  | [], rest, j, best, bt, hb, _ => ⟨best, bt, hb, by simp⟩
+  | l :: ls, rest, j, best, bt, hb, h => by
+    have hl := h l (by simp)
+    have ih := bestDivider_le suf d ls rest (j + 1)
+    simp only [List.cons_append, bestDivider]
+    have e : j + (l :: ls).length = j + 1 + ls.length := by simp; omega
+    rw [e]
+    cases hd : parseDelimLine l '-' with
+    | none => exact ih best bt hb (fun x hx => h x (by simp [hx]))
+    | some ns =>
+      obtain ⟨n, sfx⟩ := ns
+      simp only
+      by_cases hc : (suffixMatches (fsOf suf) sfx && decide (n + utf8Len sfx ≥ bt)) = true
+      · simp only [hc, ↓reduceIte]
+        simp only [Bool.and_eq_true] at hc
+        have hs := suffixMatches_fsOf_eq suf sfx hc.1
+        have hn : n ≤ d := by
+          unfold dashBound at hl
+          simp only [hd, hc.1, Bool.not_true, Bool.false_or, decide_eq_true_eq] at hl
+          exact hl
+        exact ih _ _ (by rw [hs]; omega) (fun x hx => h x (by simp [hx]))
+      · simp only [hc, Bool.false_eq_true, ↓reduceIte]
+        exact ih best bt hb (fun x hx => h x (by simp [hx]))
+
+/-- After the divider of `d` dashes was chosen, matching `---` lines with fewer dashes do not replace it. -/
+theorem bestDivider_lt_end (suf : Str) (d : Nat) :
+    ∀ (ls : List Str) (j : Nat) (x : Nat × Nat),
+      (∀ l ∈ ls, dashBound (fsOf suf) (fun n => decide (n < d)) l = true) →
+      bestDivider (fsOf suf) ls j (some x) (d + utf8Len suf) = some x
+  | [], _, _, _ => rfl
+  | l :: ls, j, x, h => by
+    have hl := h l (by simp)
+    have ih := bestDivider_lt_end suf d ls (j + 1) x (fun y hy => h y (by simp [hy]))
+    simp only [bestDivider]
+    cases hd : parseDelimLine l '-' with
+    | none => exact ih
+    | some ns =>
+      obtain ⟨n, sfx⟩ := ns
+      simp only
+      by_cases hm : suffixMatches (fsOf suf) sfx = true
+      · have hs := suffixMatches_fsOf_eq suf sfx hm
+        have hn : n < d := by
+          unfold dashBound at hl
+          simp only [hd, hm, Bool.not_true, Bool.false_or, decide_eq_true_eq] at hl
+          exact hl
+        have : decide (n + utf8Len sfx ≥ d + utf8Len suf) = false := by rw [hs]; simp; omega
+        simp only [hm, this, Bool.and_false, Bool.false_eq_true, ↓reduceIte]
+        exact ih
+      · simp only [hm, Bool.false_and, Bool.false_eq_true, ↓reduceIte]
+        exact ih
+
 /-- The body the reader collects for a written test (plus following separator lines) gives back the input. -/
 theorem buildEntry_body (suf : Str) (c : Correction) (sep : List Str) (p : Pending)
-    (h : SimpleS suf c) (hs : SufOK '-' suf) (hsep : ∀ l ∈ sep, divMismatch (fsOf suf) l = true) :
+    (h : SimpleS suf c) (hs : SufOK '-' suf) (hsep : ∀ l ∈ sep, parseDelimLine l '-' = none) :
     ∃ e, buildEntry (fsOf suf) (bodyL suf c ++ sep) p = some e ∧
       e.name = p.name ∧ e.attrsStr = p.attrsStr ∧ e.input = c.input ∧ e.hlen = p.hlen ∧ e.dlen = c.dlen ∧
       e.attrs = p.attrs ∧
       (p.attrs.cst = false → e.output = normalizeSexp ('\n' :: (trim c.output ++ '\n' :: sep.flatten)) ∧
         e.hasFields = hasFieldsOf e.output) ∧
       (p.attrs.cst = true → e.output = trim ('\n' :: (trim c.output ++ '\n' :: sep.flatten)) ∧ e.hasFields = false) := by
-  have hin : ∀ l ∈ splitIncl (c.input ++ ['\n']), divMismatch (fsOf suf) l = true := fun l hl => (h.inputLines l hl).2.1
-  have hrest : ∀ l ∈ splitIncl (trim c.output ++ ['\n']) ++ sep, divMismatch (fsOf suf) l = true := by
+  have hin : ∀ l ∈ splitIncl (c.input ++ ['\n']), dashBound (fsOf suf) (fun n => decide (n ≤ c.dlen)) l = true :=
+    fun l hl => (h.inputLines l hl).2.1
+  have hrest : ∀ l ∈ splitIncl (trim c.output ++ ['\n']) ++ sep, dashBound (fsOf suf) (fun n => decide (n < c.dlen)) l = true := by
     intro l hl
     simp only [List.mem_append] at hl
     rcases hl with hl | hl
     · exact (h.outputLines l hl).2.1
-    · exact hsep l hl
+    · simp [dashBound, hsep l hl]
   have hnl : parseDelimLine ['\n'] '-' = none := parseDelimLine_noDelim (noDelim_nl '-' (by decide))
   have hbest : bestDivider (fsOf suf) (bodyL suf c ++ sep) 0 none 0 =
       some (c.dlen, (splitIncl (c.input ++ ['\n'])).length) := by
     simp only [bodyL, List.append_assoc, List.cons_append]
-    rw [bestDivider_noDelim _ _ _ _ _ _ hin]
+    obtain ⟨best', bt', hbt, hstep⟩ := bestDivider_le suf c.dlen (splitIncl (c.input ++ ['\n']))
+      ((rep '-' c.dlen ++ (suf ++ ['\n'])) :: ['\n'] :: (splitIncl (trim c.output ++ ['\n']) ++ sep)) 0 none 0
+      (Nat.zero_le _) hin
+    rw [hstep]
+    have hge : decide (c.dlen + utf8Len suf ≥ bt') = true := by simpa using hbt
     simp only [bestDivider, parseDelimLine_rep '-' c.dlen suf h.dlen (by decide) hs, suffixMatches_fsOf,
-      Bool.true_and, ge_iff_le, Nat.zero_le, decide_true, ↓reduceIte, Nat.zero_add, hnl]
-    exact bestDivider_noDelim_end _ _ _ _ _ hrest
+      Bool.true_and, hge, ↓reduceIte, Nat.zero_add, hnl]
+    exact bestDivider_lt_end suf c.dlen _ _ _ hrest
   refine ⟨_, by simp only [buildEntry, hbest]; rfl, rfl, rfl, ?_, rfl, rfl, rfl, ?_, ?_⟩
   · simp only [bodyL, List.append_assoc]
     rw [List.take_left' rfl, splitIncl_flatten]
@@ -705,7 +785,7 @@ theorem scan_tail (os suf : Str) (hse : SufOK '=' suf) (hsd : SufOK '-' suf) :
   | c :: cs, c0, p0, acc, h0, hp0, h => by
     have hc := h c (by simp)
     obtain ⟨e, he, h1, h2, h3, h4, h5, h7, h6, h8⟩ := buildEntry_body suf c0 [['\n']] p0 h0 hsd
-      (by intro l hl; simp at hl; subst hl; exact divMismatch_of_noDelim _ _ (noDelim_nl '-' (by decide)))
+      (by intro l hl; simp at hl; subst hl; exact parseDelimLine_noDelim (noDelim_nl '-' (by decide)))
     have e1 : tailLines suf (c :: cs) = ['\n'] :: (hdrL suf c ++ (bodyL suf c ++ tailLines suf cs)) := by
       simp [tailLines]
     rw [e1, scan, parseHeader_none_of_noDelim _ _ _ _ (noDelim_nl '=' (by decide))]
